@@ -198,6 +198,9 @@ def get_c2c_expansion__count__end_size(length, count, end_size):
     _validate_count(count, ">=1")
     _validate_start_end_size(end_size, "end")
 
+    if count == 1:
+        return 1
+
     if abs(count * end_size - length) / length < constants.TOL:
         return 1
 
